@@ -329,12 +329,36 @@ def replay_rejects(chk, by_key, tier, seed):
         if c["grammarOk"] and c["stdOk"]:
             continue
         item = f"#[display({vlib.rust_str(lit)}, _0)] struct S(i32);"
-        reqs.append({"key": lit, "derive": "Display", "item": item, "tokens": False})
+        reqs.append({"key": lit, "derive": "Display", "item": item, "tokens": False, "lit": lit})
+        # the same literal WITHOUT arguments on the shapes that have their own code paths: a field-less struct, a field-less
+        # variant (variant-level attribute), an enum-level attribute, a Debug field, a two-field struct
+        if vlib.seeded_pick(lit, 53, 3) != 0 and len(lit) > 3:
+            continue      # (every short literal, a third of the longer ones)
+        for sk, it, dv in (("unit", f"#[display({vlib.rust_str(lit)})] struct S;", "Display"),
+                           ("unitvariant", f"enum S {{ #[display({vlib.rust_str(lit)})] V, W }}", "Display"),
+                           ("shared", f"#[display({vlib.rust_str(lit)})] enum S {{ V, W(i32) }}", "Display"),
+                           ("debugfield", f"struct S {{ #[debug({vlib.rust_str(lit)})] a: i32, b: u8 }}", "Debug"),
+                           ("two", f"#[lower_hex({vlib.rust_str(lit)})] struct S(i32, u8);", "LowerHex")):
+            reqs.append({"key": f"{sk}|{lit}", "derive": dv, "item": it, "tokens": False, "lit": lit, "shape": sk})
     obs = vlib.run_inproc("expand", reqs)
     rejected = []
     for rq in reqs:
-        lit = rq["key"]
-        o = obs[lit]
+        lit = rq["lit"]
+        o = obs[rq["key"]]
+        if rq.get("shape"):
+            # (only the verdict "never silently accepted" is taken from the extra shapes)
+            chk.cov["evaluations"] += 1
+            if o["outcome"] == "ok":
+                bodies = " ".join(f["body"] for im in o["impls"] for f in im["fns"])
+                if "write !" not in bodies and "format_args !" not in bodies:
+                    chk.deviation(f"rej:{rq['key']}", "a literal std::fmt rejects is silently accepted (never reaches format_args!)",
+                                  case={"literal": lit, "item": rq["item"]}, expected="literal handed to write!() / format_args!()",
+                                  observed=bodies[:400], tags={"kind": "silent_accept"})
+            elif o["outcome"] != "err":
+                chk.deviation(f"rej:{rq['key']}", f"expansion {o['outcome']}: {o.get('msg')} at {o.get('loc')}",
+                              case={"literal": lit, "item": rq["item"]}, expected="Err or write!(..literal..)", observed=o,
+                              tags={"kind": "expand_" + o["outcome"]})
+            continue
         chk.cov["evaluations"] += 1
         if o["outcome"] == "err":
             continue
